@@ -637,8 +637,18 @@ func (fc *fnCtx) execBuiltin(st *state, ins ssa.Instruction, c *ssa.CallCommon, 
 			}
 		}
 		if src, shared := fc.aliasOf[s.T]; shared {
-			fc.assert(st, "frame", fmt.Sprintf("frame.append-into-a-shared-backing-array#%d", fc.site("frame.alias")), fmt.Sprintf("(>= (slen %s) (slen %s))", s.T, src.T),
+			off := "0"
+			if o, ok := fc.aliasOff[s.T]; ok {
+				off = o
+			}
+			fc.assert(st, "frame", fmt.Sprintf("frame.append-into-a-shared-backing-array#%d", fc.site("frame.alias")), fmt.Sprintf("(>= (+ %s (slen %s)) (slen %s))", off, s.T, src.T),
 				"append to a reslice x[:k] overwrites x's backing array while k < len(x): a write to memory this function does not own", ins.Pos())
+		} else if why := foreignSlice(c.Args[0], map[ssa.Value]bool{}); why != "" {
+			// append to a slice this function did not create: with spare capacity it writes into a backing
+			// array that other holders of the slice share (slices are values in this model, so the write
+			// itself is not represented: it is excluded by this obligation instead)
+			fc.assert(st, "frame", fmt.Sprintf("frame.append-to-a-slice-not-created-here#%d", fc.site("frame.foreign")), "false",
+				"append to a slice obtained from "+why+": if it has spare capacity the element is written into a backing array shared with its other holders", ins.Pos())
 		}
 		var r Val
 		if single {
@@ -736,6 +746,71 @@ func (fc *fnCtx) sortSlice(st *state, c *ssa.CallCommon, ins ssa.Instruction) {
 		r.T, pinv, pinv, r.T, r.T, pinv, old.T, pi, pinv, old.T))
 	fc.store(st, target, r)
 	fc.trusted["sort.Slice: the slice variable is rebound to a permutation of its old value (order not modelled)"] = true
+}
+
+// foreignSlice: does the slice value come from outside the function (parameter, field, element,
+// type assertion, call result)?  Returns a description of the origin, or "" when every definition
+// reaching v is nil, make, a literal, or an append to such a slice.
+func foreignSlice(v ssa.Value, seen map[ssa.Value]bool) string {
+	if seen[v] {
+		return ""
+	}
+	seen[v] = true
+	switch x := v.(type) {
+	case *ssa.Const:
+		return ""
+	case *ssa.MakeSlice:
+		return ""
+	case *ssa.Slice:
+		if _, ok := x.X.Type().Underlying().(*types.Pointer); ok {
+			if _, isAlloc := x.X.(*ssa.Alloc); isAlloc {
+				return "" // slice literal / variadic argument array built here
+			}
+			return "an array this function did not allocate"
+		}
+		return foreignSlice(x.X, seen)
+	case *ssa.Call:
+		if b, ok := x.Call.Value.(*ssa.Builtin); ok && b.Name() == "append" {
+			return foreignSlice(x.Call.Args[0], seen)
+		}
+		return "a call result"
+	case *ssa.ChangeType:
+		return foreignSlice(x.X, seen)
+	case *ssa.Convert:
+		return foreignSlice(x.X, seen)
+	case *ssa.Phi:
+		for _, e := range x.Edges {
+			if w := foreignSlice(e, seen); w != "" {
+				return w
+			}
+		}
+		return ""
+	case *ssa.UnOp:
+		if x.Op == token.MUL {
+			if a, ok := x.X.(*ssa.Alloc); ok {
+				// every store into the local variable
+				for _, ref := range *a.Referrers() {
+					if st, ok := ref.(*ssa.Store); ok && st.Addr == a {
+						if w := foreignSlice(st.Val, seen); w != "" {
+							return w
+						}
+					}
+				}
+				return ""
+			}
+			if _, ok := x.X.(*ssa.FreeVar); ok {
+				return "" // captured local of the enclosing function (checked there)
+			}
+			return "a field or element"
+		}
+	case *ssa.Parameter:
+		return "a parameter"
+	case *ssa.TypeAssert:
+		return "a type assertion on a value passed in"
+	case *ssa.Extract:
+		return "a call result"
+	}
+	return "an expression outside the tracked forms"
 }
 
 // isExternalCallee: the callee is declared outside the packages of /repo.
